@@ -23,6 +23,7 @@ def run(ctx, run):
 
     # ---- RF-DEP: flags delivered = flags accumulated before the clear ----------
     _flags_dep(ctx, run, fa)
+    _blind_spot_flagged(ctx, run, fa)
 
     # ---- RF-INIT ------------------------------------------------------------------
     _init(ctx, run, "_vbi_idl_demux", ["vbi_idl_demux_feed", "idl_a_demux_feed"], ["_vbi_idl_demux_init"], IDL)
@@ -224,6 +225,48 @@ def _ge0_of_call_local(f, a, callee):
                 if r["k"] == "call" and r.get("callee") == callee:
                     return True
     return False
+
+
+def _blind_spot_flagged(ctx, run, f):
+    """idl_a_demux_feed notices lost packets by comparing continuity indices.  `dx->ci = -1` switches that comparison off
+    for the next packet (the `dx->ci >= 0` test), so a path that stores it has discarded data the comparison can no
+    longer see: it must record the loss itself (`dx->flags |= VBI_IDL_DATA_LOST`) before it returns."""
+    lost = P_const = None
+    stores = []
+    for bid, i in flow.all_events(f):
+        for lhs, var, op, rhs in flow.stores(f, i):
+            if lhs is None or rhs is None:
+                continue
+            l = f.exprs[ex.skip(f, lhs)]
+            if l["k"] == "mem" and l.get("in") == "_vbi_idl_demux" and l["member"] == "ci" and op == "=":
+                v = ex.const(f, rhs)
+                if v is not None and v < 0:
+                    stores.append(i)
+    run.floor("stores that switch the IDL continuity check off", len(stores), 2)
+
+    def sets_lost(ff, ii):
+        for lhs, var, op, rhs in flow.stores(ff, ii):
+            if lhs is None or rhs is None:
+                continue
+            l = ff.exprs[ex.skip(ff, lhs)]
+            if l["k"] == "mem" and l.get("in") == "_vbi_idl_demux" and l["member"] == "flags" and op in ("|=", "="):
+                v = ex.const(ff, rhs)
+                if v is not None and v & 1:
+                    return True
+                if op == "=" and v is None and any(ex.const(ff, n) == 1 for n in ex.walk(ff, rhs)):
+                    return True
+        return False
+    for i in stores:
+        okp, _ = atoms.must_pass(f, i, sets_lost)
+        bid, n = flow.elem_pos(f)[i]
+        before = any(sets_lost(f, j) for j in f.blocks[bid].elems[:n] if flow.is_event(f, j))
+        key = "RF-CORR:idl_a_demux_feed:blind-spot-flagged:%d" % (stores.index(i))
+        if okp or before:
+            run.holds("RF-CORR", key, "`%s` is accompanied by VBI_IDL_DATA_LOST on every path" % ex.pretty(f, i), ex.loc(f, i))
+        else:
+            run.violation("RF-CORR", key, "`%s` switches the continuity comparison off for the next packet, but a path returns without "
+                          "recording VBI_IDL_DATA_LOST: the packet discarded here is never reported as lost" % ex.pretty(f, i),
+                          ex.loc(f, i), witness={"function": f.name})
 
 
 def _flags_dep(ctx, run, f):
@@ -550,7 +593,37 @@ def _page_complete_at_header(ctx, run, f):
             continue            # the other resets (packet continuity, Hamming errors)
         n += 1
         key = "RF-DOM:vbi_pfc_demux_feed:header-checks-page-complete"
-        if {"packet", "n_packets"} <= flds:
+        # the edges that by-pass the reset: one of them has to state `packet > n_packets` (the next expected packet
+        # lies beyond the last one of the previous page, i.e. that page was received to its end); `>=` lets a page
+        # through whose last packet is missing
+        strict = False
+        weak = None
+        for pb in f.blocks[bid].preds:
+            t = f.blocks[pb].term
+            if not (t and "cond" in t):
+                continue
+            for s_, lab in f.edges(pb):
+                if s_ == bid:
+                    continue
+                for a in atoms.edge_atoms(f, pb, lab):
+                    if a.R is None:
+                        continue
+                    lf = {x.split(".")[-1] for x in a.L.fields}
+                    rf = {x.split(".")[-1] for x in a.R.fields}
+                    rel = a.rel
+                    if lf == {"n_packets"} and rf == {"packet"}:
+                        lf, rf, rel = rf, lf, atoms.FLIP[rel]
+                    if lf == {"packet"} and rf == {"n_packets"}:
+                        if rel == ">":
+                            strict = True
+                        else:
+                            weak = a
+        if {"packet", "n_packets"} <= flds and weak is not None and not strict:
+            run.violation("RF-CMP", key, "a page header keeps the block in progress under `%s`: the previous page is complete only "
+                          "when the next expected packet lies beyond n_packets (packet > n_packets); with the last packet of the page "
+                          "missing the unfinished block is completed with bytes of the next page and delivered" % weak, ex.loc(f, i),
+                          witness={"function": f.name, "bypass_condition": repr(weak)})
+        elif {"packet", "n_packets"} <= flds:
             run.holds("RF-DOM", key, "a page header resets the block in progress when the continuity index is wrong or the previous "
                       "page stopped short of n_packets", ex.loc(f, i))
         else:
